@@ -4,7 +4,7 @@ package safemath
 
 // Contracts for the verification machinery in /verif (comment-only file, never compiled into
 // a normal build). Grammar: /verif/DESIGN.md §3.2. Arithmetic inside contracts is unbounded
-// mathematical integer arithmetic; `/` is the truncated quotient.
+// mathematical integer arithmetic; `/` is the truncated quotient, shl(v, k) is v * 2^k.
 
 /*@
 func SafeAdd
@@ -38,8 +38,9 @@ func SafeDiv
 
 func SafeLeftShift
   instantiate T: int8, int16, int32, int64, uint8, uint16, uint32, uint64
-  ensures  fits(T, val * pow2(shift)) ==> r1 == nil && r0 == val * pow2(shift)
-  ensures !fits(T, val * pow2(shift)) ==> is(r1, ErrIntegerOverflow)
+  opt split shift 0 64                    -- proof hint only: one obligation per shift count 0..64 and one for the rest
+  ensures  fits(T, shl(val, shift)) ==> r1 == nil && r0 == shl(val, shift)
+  ensures !fits(T, shl(val, shift)) ==> is(r1, ErrIntegerOverflow)
 
 func Safe64MulDiv
   ensures div == 0 ==> is(r1, ErrIntegerDivisionByZero)
